@@ -11,7 +11,10 @@ import (
 	"sort"
 	"strconv"
 	"strings"
+	"sync"
 	"time"
+
+	"golang.org/x/sys/unix"
 
 	"github.com/golang/snappy"
 	"github.com/prometheus/prometheus/prompb"
@@ -19,8 +22,59 @@ import (
 	"verifharness/proc"
 )
 
+// srvBox is one ts-server shared by the goroutines of a worker. Queries hold the read
+// lock; a query that gets no answer makes its goroutine kill and restart the server
+// (write lock), because such a query keeps allocating inside the server.
+type srvBox struct {
+	mu       sync.RWMutex
+	s        *proc.Server
+	gen      int
+	restarts int
+	dead     bool
+	onUp     func() bool // re-establishes visibility after a restart
+}
+
+const serverMemCap = 10 << 30 // RLIMIT_AS of a ts-server: a runaway query must not take the machine
+
+func (b *srvBox) limit() {
+	if pid := b.s.Pid(); pid > 0 {
+		lim := unix.Rlimit{Cur: serverMemCap, Max: serverMemCap}
+		_ = unix.Prlimit(pid, unix.RLIMIT_AS, &lim, nil)
+	}
+}
+
+// restart kills and restarts the server unless another goroutine already did (gen).
+func (b *srvBox) restart(gen int) {
+	b.mu.Lock()
+	defer b.mu.Unlock()
+	if b.gen != gen || b.dead {
+		return
+	}
+	b.gen++
+	b.restarts++
+	b.s.Kill()
+	if b.restarts > 12 {
+		b.dead = true
+		return
+	}
+	if err := b.s.Start(); err != nil {
+		b.dead = true
+		return
+	}
+	b.limit()
+	if err := b.s.WaitReady(120 * time.Second); err != nil {
+		b.s.Kill()
+		b.dead = true
+		return
+	}
+	if b.onUp != nil && !b.onUp() {
+		b.dead = true
+	}
+}
+
 // og is the client of one openGemini database through the Prometheus-compatible API.
 type og struct {
+	b  *srvBox
 	s  *proc.Server
 	db string
 }
@@ -83,26 +137,80 @@ type transportError struct{ err error }
 
 func (t transportError) Error() string { return t.err.Error() }
 
+const (
+	queryTimeout = 20 * time.Second
+	maxBody      = 64 << 20
+)
+
+var queryClient = &http.Client{Transport: &http.Transport{MaxIdleConnsPerHost: 16}, Timeout: queryTimeout}
+
+// get performs one API call. An answer that does not arrive within queryTimeout or is
+// larger than maxBody is returned as an error *answer* (Result.Err) with a fixed text, so
+// that it is judged like any other wrong answer; connection-level failures are retried
+// and finally returned as transportError.
 func (o *og) get(path string, v url.Values) (*Result, error) {
+	res, gen, err := o.get1(path, v)
+	if err == nil && res.Err == noAnswer && o.b != nil {
+		o.b.restart(gen)
+	}
+	return res, err
+}
+
+func (o *og) get1(path string, v url.Values) (*Result, int, error) {
+	gen := 0
+	if o.b != nil {
+		o.b.mu.RLock()
+		defer o.b.mu.RUnlock()
+		gen = o.b.gen
+		if o.b.dead {
+			return nil, gen, transportError{fmt.Errorf("server given up after repeated restarts")}
+		}
+	}
+	r, err := o.get0(path, v)
+	if err != nil && o.b != nil && !o.s.Alive() {
+		// the server died while answering (e.g. out of memory under the address-space cap)
+		return &Result{Err: noAnswer}, gen, nil
+	}
+	return r, gen, err
+}
+
+func (o *og) get0(path string, v url.Values) (*Result, error) {
 	v.Set("db", o.db)
 	var lastErr error
 	for attempt := 0; attempt < 3; attempt++ {
-		resp, err := o.s.HTTP.Get(o.s.URL() + path + "?" + v.Encode())
+		resp, err := queryClient.Get(o.s.URL() + path + "?" + v.Encode())
 		if err != nil {
+			if ue, ok := err.(*url.Error); ok && ue.Timeout() {
+				return &Result{Err: noAnswer}, nil
+			}
+			if !o.s.Alive() {
+				return nil, transportError{err}
+			}
 			lastErr = err
 			time.Sleep(200 * time.Millisecond)
 			continue
 		}
-		b, err := io.ReadAll(resp.Body)
+		b, err := io.ReadAll(io.LimitReader(resp.Body, maxBody+1))
 		resp.Body.Close()
 		if err != nil {
+			if strings.Contains(err.Error(), "Timeout") || strings.Contains(err.Error(), "deadline") {
+				return &Result{Err: noAnswer}, nil
+			}
 			lastErr = err
 			continue
+		}
+		if len(b) > maxBody {
+			return &Result{Err: oversized}, nil
 		}
 		return decodeProm(resp.StatusCode, b)
 	}
 	return nil, transportError{lastErr}
 }
+
+const (
+	noAnswer  = "harness: no answer within 20s (or the server died answering); server killed and restarted"
+	oversized = "harness: response larger than 64 MiB"
+)
 
 func (o *og) instant(expr string, tms int64) (*Result, error) {
 	return o.get("/api/v1/query", url.Values{"query": {expr}, "time": {msStr(tms)}})
